@@ -98,40 +98,21 @@ Lemma clip_loop_length : forall sp tr px pd out, length sp = length tr ->
 Proof.
   induction sp as [|s sp IH]; intros [|t tr] px pd out H; simpl in *; try discriminate; try reflexivity.
   injection H as H.
-  specialize (IH tr px pd (px + (t - clipped_of t (px * dens s) pd (cap s))) H).
+  specialize (IH tr px pd (out + (t - clipped_of t (px * dens s) pd (cap s))) H).
   unfold clip_trapped. cbv zeta.
   destruct (clip_loop sp tr _ _ _) as [o' cs]. simpl in *. now rewrite IH.
 Qed.
 
-(* the accounting of the second loop: what is returned, plus what the loop drops, is what came in *)
-Lemma clip_loop_account : forall sp tr px pd out, length sp = length tr -> sp <> [] ->
-  fst (clip_loop sp tr px pd out) + qsum (snd (clip_loop sp tr px pd out)) + clip_lost sp tr px pd
-  == px + qsum tr.
+(* the second loop moves the clipped excess of EVERY species from the traps to the returned pixel *)
+Lemma clip_loop_conserves : forall sp tr px pd out, length sp = length tr ->
+  fst (clip_loop sp tr px pd out) + qsum (snd (clip_loop sp tr px pd out)) == out + qsum tr.
 Proof.
-  induction sp as [|s sp IH]; intros [|t tr] px pd out H NE; simpl in H; try discriminate; try congruence.
+  induction sp as [|s sp IH]; intros [|t tr] px pd out H; simpl in H; try discriminate; [simpl; lra|].
   injection H as H.
-  destruct sp as [|s2 sp].
-  - destruct tr; [|discriminate]. simpl. lra.
-  - destruct tr as [|t2 tr]; [discriminate|].
-    assert (NE2 : s2 :: sp <> []) by discriminate.
-    specialize (IH (t2 :: tr) px pd (px + (t - clipped_of t (px * dens s) pd (cap s))) H NE2).
-    cbn [clip_loop clip_trapped clip_lost fst snd] in *.
-    destruct (clip_loop sp tr px pd _) as [o' cs] eqn:E.
-    cbn [fst snd qsum] in *. lra.
+  specialize (IH tr px pd (out + (t - clipped_of t (px * dens s) pd (cap s))) H).
+  cbn [clip_loop clip_trapped].
+  destruct (clip_loop sp tr px pd _) as [o' cs]. cbn [fst snd qsum] in *. lra.
 Qed.
-
-Lemma clip_lost_nonneg : forall sp tr px pd, 0 <= clip_lost sp tr px pd.
-Proof.
-  induction sp as [|s sp IH]; intros tr px pd; [simpl; lra|].
-  destruct sp as [|s2 sp]; [simpl; lra|].
-  destruct tr as [|t [|t2 tr]]; [simpl; lra|simpl; lra|].
-  specialize (IH (t2 :: tr) px pd).
-  cbn [clip_lost clip_trapped fst] in *.
-  pose proof (clipped_le t (px * dens s) pd (cap s)). lra.
-Qed.
-
-Lemma clip_lost_single : forall s t px pd, clip_lost [s] [t] px pd = 0.
-Proof. reflexivity. Qed.
 
 Lemma clip_loop_nonneg : forall sp tr px pd out, Forall species_okP sp -> nonneg tr -> 0 <= px -> 0 <= out ->
   0 <= fst (clip_loop sp tr px pd out) /\ nonneg (snd (clip_loop sp tr px pd out)).
@@ -142,74 +123,86 @@ Proof.
   assert (Hav : 0 <= px * dens s) by nra.
   pose proof (clipped_le t (px * dens s) pd (cap s)) as L.
   pose proof (clipped_nonneg t (px * dens s) pd (cap s) H3 Hav Hc) as N.
-  assert (Ho2 : 0 <= px + (t - clipped_of t (px * dens s) pd (cap s))) by lra.
+  assert (Ho2 : 0 <= out + (t - clipped_of t (px * dens s) pd (cap s))) by lra.
   specialize (IH tr px pd _ H2 H4 Hp Ho2).
   unfold clip_trapped. cbv zeta.
   destruct (clip_loop sp tr _ _ _) as [o' cs]. simpl in *. destruct IH as [I1 I2].
   split; [assumption | constructor; assumption].
 Qed.
 
+(* the returned pixel is never below the pixel after trapping: clipping only gives charge back *)
+Lemma clip_loop_ge : forall sp tr px pd out, fst (clip_loop sp tr px pd out) >= out.
+Proof.
+  induction sp as [|s sp IH]; intros [|t tr] px pd out; simpl; try lra.
+  pose proof (clipped_le t (px * dens s) pd (cap s)) as L.
+  specialize (IH tr px pd (out + (t - clipped_of t (px * dens s) pd (cap s)))).
+  unfold clip_trapped. cbv zeta.
+  destruct (clip_loop sp tr _ _ _) as [o' cs]. simpl in *. lra.
+Qed.
+
 (* ------------------------------------------------------------------------------------------ one call *)
 
-Lemma persist_length : forall sp tr p, length sp = length tr ->
-  length (snd (persist_pixel sp tr p)) = length tr.
+Lemma persist_raw_length : forall sp tr p, length sp = length tr ->
+  length (snd (persist_pixel_raw sp tr p)) = length tr.
 Proof.
-  intros sp tr p H. unfold persist_pixel.
+  intros sp tr p H. unfold persist_pixel_raw.
   pose proof (trap_loop_length sp tr p H) as L.
   destruct (trap_loop sp tr p) as [p1 t1]. simpl in L.
   rewrite clip_loop_length; [exact L | congruence].
 Qed.
 
-(* EXACT accounting for any number of species: returned pixel + returned trapped charge + the excess the
-   second loop discards = pixel + trapped charge before the call *)
-Lemma persist_account : forall sp tr p, length sp = length tr -> sp <> [] ->
-  fst (persist_pixel sp tr p) + qsum (snd (persist_pixel sp tr p)) + persist_lost sp tr p == p + qsum tr.
+Lemma persist_raw_conserves : forall sp tr p, length sp = length tr ->
+  fst (persist_pixel_raw sp tr p) + qsum (snd (persist_pixel_raw sp tr p)) == p + qsum tr.
 Proof.
-  intros sp tr p H NE. unfold persist_pixel, persist_lost.
+  intros sp tr p H. unfold persist_pixel_raw.
   pose proof (trap_loop_conserves sp tr p H) as C.
   pose proof (trap_loop_length sp tr p H) as L.
   destruct (trap_loop sp tr p) as [p1 t1]. simpl in C, L.
   assert (H1 : length sp = length t1) by congruence.
-  pose proof (clip_loop_account sp t1 p1 (p1 - p) p1 H1 NE). lra.
+  pose proof (clip_loop_conserves sp t1 p1 (p1 - p) p1 H1). lra.
 Qed.
 
-Lemma persist_lost_nonneg : forall sp tr p, 0 <= persist_lost sp tr p.
+Lemma persist_raw_nonneg : forall sp tr p, Forall species_okP sp -> nonneg tr -> 0 <= p ->
+  0 <= fst (persist_pixel_raw sp tr p) /\ nonneg (snd (persist_pixel_raw sp tr p)).
 Proof.
-  intros. unfold persist_lost. destruct (trap_loop sp tr p) as [p1 t1]. apply clip_lost_nonneg.
+  intros sp tr p Hs Ht Hp. unfold persist_pixel_raw.
+  pose proof (trap_loop_nonneg sp tr p Hs Ht Hp) as [A B].
+  destruct (trap_loop sp tr p) as [p1 t1]. simpl in A, B.
+  apply clip_loop_nonneg; assumption.
 Qed.
 
-(* charge is never created, whatever the parameters *)
-Lemma persist_no_creation : forall sp tr p, length sp = length tr -> sp <> [] ->
-  fst (persist_pixel sp tr p) + qsum (snd (persist_pixel sp tr p)) <= p + qsum tr.
+(* lowest terms: same numbers *)
+Lemma qsum_map_Qred : forall l, qsum (map Qred l) == qsum l.
+Proof. induction l as [|x l IH]; simpl; [reflexivity|]. rewrite Qred_correct, IH. reflexivity. Qed.
+
+Lemma nonneg_map_Qred : forall l, nonneg l -> nonneg (map Qred l).
+Proof. induction 1; simpl; constructor; [rewrite Qred_correct; assumption | assumption]. Qed.
+
+Lemma persist_pixel_unfold : forall sp tr p,
+  persist_pixel sp tr p = (Qred (fst (persist_pixel_raw sp tr p)), map Qred (snd (persist_pixel_raw sp tr p))).
+Proof. intros. unfold persist_pixel. destruct (persist_pixel_raw sp tr p); reflexivity. Qed.
+
+Lemma persist_length : forall sp tr p, length sp = length tr ->
+  length (snd (persist_pixel sp tr p)) = length tr.
 Proof.
-  intros sp tr p H NE. pose proof (persist_account sp tr p H NE). pose proof (persist_lost_nonneg sp tr p). lra.
+  intros sp tr p H. rewrite persist_pixel_unfold. cbn [snd]. rewrite map_length. apply persist_raw_length; exact H.
 Qed.
 
-(* one trap species: exact conservation, for all inputs *)
-Lemma persist_conserves_one : forall s t p,
-  fst (persist_pixel [s] [t] p) + qsum (snd (persist_pixel [s] [t] p)) == p + qsum [t].
+(* EXACT conservation for any number of species and ANY parameters: returned pixel + returned trapped charge
+   = pixel + trapped charge before the call *)
+Lemma persist_conserves : forall sp tr p, length sp = length tr ->
+  fst (persist_pixel sp tr p) + qsum (snd (persist_pixel sp tr p)) == p + qsum tr.
 Proof.
-  intros. pose proof (persist_account [s] [t] p eq_refl ltac:(discriminate)) as A.
-  assert (E : persist_lost [s] [t] p = 0).
-  { unfold persist_lost. cbn [trap_loop]. reflexivity. }
-  rewrite E in A. lra.
-Qed.
-
-(* any number of species: conservation holds exactly when no species but the last is clipped *)
-Lemma persist_conserves_iff : forall sp tr p, length sp = length tr -> sp <> [] ->
-  (fst (persist_pixel sp tr p) + qsum (snd (persist_pixel sp tr p)) == p + qsum tr
-   <-> persist_lost sp tr p == 0).
-Proof.
-  intros sp tr p H NE. pose proof (persist_account sp tr p H NE). split; intros; lra.
+  intros sp tr p H. rewrite persist_pixel_unfold. cbn [fst snd].
+  rewrite Qred_correct, qsum_map_Qred. apply persist_raw_conserves; exact H.
 Qed.
 
 Lemma persist_nonneg : forall sp tr p, Forall species_okP sp -> nonneg tr -> 0 <= p ->
   0 <= fst (persist_pixel sp tr p) /\ nonneg (snd (persist_pixel sp tr p)).
 Proof.
-  intros sp tr p Hs Ht Hp. unfold persist_pixel.
-  pose proof (trap_loop_nonneg sp tr p Hs Ht Hp) as [A B].
-  destruct (trap_loop sp tr p) as [p1 t1]. simpl in A, B.
-  apply clip_loop_nonneg; assumption.
+  intros sp tr p Hs Ht Hp. rewrite persist_pixel_unfold. cbn [fst snd].
+  destruct (persist_raw_nonneg sp tr p Hs Ht Hp) as [A B].
+  split; [rewrite Qred_correct; exact A | apply nonneg_map_Qred; exact B].
 Qed.
 
 (* ------------------------------------------------------------------------------------------ several calls *)
@@ -217,46 +210,45 @@ Qed.
 Definition step_ok (n : nat) (st : Q * list species) : Prop :=
   0 <= fst st /\ length (snd st) = n /\ Forall species_okP (snd st).
 
-Lemma persist_steps_inv : forall steps tr p, tr <> [] ->
+(* any number of readouts, any number of species: the total is EXACTLY the initial total plus everything
+   collected, and nothing becomes negative *)
+Lemma persist_steps_inv : forall steps tr p,
   Forall (step_ok (length tr)) steps -> nonneg tr -> 0 <= p ->
   0 <= fst (persist_steps steps tr p) /\ nonneg (snd (persist_steps steps tr p))
   /\ length (snd (persist_steps steps tr p)) = length tr
   /\ fst (persist_steps steps tr p) + qsum (snd (persist_steps steps tr p))
-     <= p + qsum tr + qsum (map fst steps).
+     == p + qsum tr + qsum (map fst steps).
 Proof.
-  induction steps as [|[add sp] rest IH]; intros tr p NE Hs Ht Hp.
+  induction steps as [|[add sp] rest IH]; intros tr p Hs Ht Hp.
   - simpl. repeat split; try assumption; try lra.
   - inversion Hs; subst. destruct H1 as (Ha & Hl & Hok). simpl in Ha, Hl, Hok.
-    assert (NEs : sp <> []) by (destruct sp; [destruct tr; [congruence|discriminate]|discriminate]).
     assert (Hp' : 0 <= p + add) by lra.
     pose proof (persist_nonneg sp tr (p + add) Hok Ht Hp') as [N1 N2].
-    pose proof (persist_no_creation sp tr (p + add) Hl NEs) as C.
+    pose proof (persist_conserves sp tr (p + add) Hl) as C.
     pose proof (persist_length sp tr (p + add) Hl) as L.
     cbn [persist_steps map fst qsum].
     destruct (persist_pixel sp tr (p + add)) as [p' t'] eqn:E. cbn [fst snd] in *.
-    assert (NE' : t' <> []) by (destruct t'; [destruct tr; [congruence|discriminate]|discriminate]).
     rewrite <- L in H2.
-    specialize (IH t' p' NE' H2 N2 N1). destruct IH as (I1 & I2 & I3 & I4).
+    specialize (IH t' p' H2 N2 N1). destruct IH as (I1 & I2 & I3 & I4).
     repeat split; try assumption; try lra. congruence.
 Qed.
 
-(* one species, several readouts: the total is exactly the initial total plus everything collected *)
-Lemma persist_steps_one : forall steps t p,
-  Forall (fun st => length (snd st) = 1%nat) steps ->
-  exists t', snd (persist_steps steps [t] p) = [t'] /\
-  fst (persist_steps steps [t] p) + t' == p + t + qsum (map fst steps).
+(* the total alone needs no range hypothesis at all *)
+Lemma persist_steps_total : forall steps tr p,
+  Forall (fun st => length (snd st) = length tr) steps ->
+  length (snd (persist_steps steps tr p)) = length tr
+  /\ fst (persist_steps steps tr p) + qsum (snd (persist_steps steps tr p))
+     == p + qsum tr + qsum (map fst steps).
 Proof.
-  induction steps as [|[add sp] rest IH]; intros t p Hs.
-  - exists t. simpl. split; [reflexivity | lra].
+  induction steps as [|[add sp] rest IH]; intros tr p Hs.
+  - simpl. split; [reflexivity | lra].
   - inversion Hs; subst. simpl in H1.
-    destruct sp as [|s [|s2 sp]]; try discriminate.
-    pose proof (persist_conserves_one s t (p + add)) as C.
-    pose proof (persist_length [s] [t] (p + add) eq_refl) as L.
+    pose proof (persist_conserves sp tr (p + add) H1) as C.
+    pose proof (persist_length sp tr (p + add) H1) as L.
     cbn [persist_steps map fst qsum].
-    destruct (persist_pixel [s] [t] (p + add)) as [p' ts] eqn:E. cbn [fst snd] in *.
-    destruct ts as [|t1 [|t2 ts]]; try discriminate.
-    destruct (IH t1 p' H2) as (t' & E1 & E2).
-    exists t'. split; [exact E1|]. simpl in C. lra.
+    destruct (persist_pixel sp tr (p + add)) as [p' t'] eqn:E. cbn [fst snd] in *.
+    rewrite <- L in H2.
+    destruct (IH t' p' H2) as (I3 & I4). split; [congruence | lra].
 Qed.
 
 (* ------------------------------------------------------------------------------------------ the two entry points *)
